@@ -114,7 +114,7 @@ pub fn execute_with(sc: &Scenario, replay: Option<&[Event]>, keep_log: bool, opt
             }
         }
     }
-    if opts.quiesce && oracle.found.is_empty() && !trace.iter().any(|e| matches!(e, Event::CheckLiveness)) {
+    if opts.quiesce && oracle.found.is_empty() {
         let mut q = driver::Quiescer::new(sc);
         while let Some(ev) = q.next(&w) {
             if !step_one(&mut w, &mut oracle, ev, &mut trace, &mut log) {
@@ -199,6 +199,23 @@ fn run_c15(ctx: &RunCtx) -> RunReport {
         return report;
     }
     // candidate crash points: (index in trace, j-th write statement of that event, label)
+    // differential precondition: the same history WITHOUT any stop must itself pass the quiescence
+    // script, otherwise a stalled round later on says nothing about crashes
+    {
+        let live = execute_with(&sc, Some(&base.trace), false, &ExecOptions { quiesce: true, ..Default::default() });
+        if live.found.iter().any(|f| f.clause == "no-progress-after-faults") {
+            report.hit("c15_baseline_not_live_run_skipped");
+            report.fingerprint = base.fingerprint;
+            report.digest = base.digest;
+            report.counters.extend(base.counters.clone());
+            return report;
+        }
+        if let Some(f) = live.found.first() {
+            report.violations.push(Violation { property: "C15".into(), clause: f.clause.clone(), detail: format!("fault-free baseline + quiescence, step {}: {}", f.step, f.detail), finding: None });
+            report.replay = Some(json!({"scenario": sc, "trace": live.trace, "quiesce": false}));
+            return report;
+        }
+    }
     // only events after the operator's bootstrap script, and only the aggregator's own operations
     // (ticks, background artifact task, signature deliveries): these contain every persistence
     // step of certificate creation, artifact production and buffered-signature hand-over
@@ -380,7 +397,7 @@ impl Engine for NetEngine {
             return None;
         }
         let runs = match (property, tier) {
-            ("C15", Tier::Quick) => 48,
+            ("C15", Tier::Quick) => 32,
             ("C15", Tier::Thorough) => 2_000,
             (_, Tier::Quick) => 480,
             (_, Tier::Thorough) => 24_000,
